@@ -87,6 +87,11 @@ def generate(rng, tier, index):
     if len(cfg['elements']) == 1:
         # a small grid, so that a phase that is not listed first outgrows it and classes are appended within the run
         cfg['pbm'].update({'cMax': 2e-9, 'bins': 30, 'minBins': 20, 'maxBins': 200})
+    if rng.random() < 0.08:
+        # one phase is a needle/plate whose aspect ratio is calculated from its elastic strain energy (per-phase aspect-ratio tables)
+        ph = rng.choice(cfg['phases'])
+        cfg['phase_params'][ph].update({'site': 'bulk', 'shape': rng.choice(['needle', 'plate']), 'ar': 1.0,
+                                        'strain': {'eig': [6.67e-3, 6.67e-3, rng.choice([2.86e-2, 1.5e-2])], 'G': 57.1e9, 'nu': 0.33, 'calcAR': True}})
     # every step-size constraint enabled, volume-change limit tight enough to bind
     cfg['constraints'] = {'maxVolumeChange': rng.choice([1e-3, 1e-4, 2e-5, 5e-6])}
     if rng.random() < 0.3:
